@@ -253,6 +253,41 @@ class Gen(object):
                 self.feat('nonlocal-in-%s%s' % (ctx.kind, '-two-names' if len(ns) > 1 else ''))
                 out.append('%snonlocal %s' % (ind, ', '.join(ns)))
 
+    def structured_del(self, ctx, ind, must=None):
+        """del with parenthesised tuple / list / nested targets.  Inside a tuple or list only names are used that
+        the scope declares global/nonlocal or already binds in another way (so that the deletion does not decide
+        whether the name is local); plain components may be any name."""
+        rng = self.rng
+        c = ctx.noncomp()
+        if c.kind in ('function', 'lambda'):
+            elig = sorted(n for n in self.pool if n in c.g or n in c.nl or n in c.bound)
+        else:
+            elig = list(self.pool)
+        if must is not None:
+            elig = [n for n in elig if n != must]
+        elif not elig:
+            return None
+
+        def pick():
+            return rng.choice(elig) if elig else must
+        first = must if must is not None else pick()
+        form = rng.choice(['tuple', 'tuple1', 'list', 'nested', 'mixed'])
+        if form == 'tuple':
+            t = '(%s, %s)' % (first, pick())
+        elif form == 'tuple1':
+            t = '(%s,)' % first
+        elif form == 'list':
+            t = '[%s]' % first if rng.random() < 0.5 else '[%s, %s]' % (pick(), first)
+        elif form == 'nested':
+            t = '(%s, [%s, %s])' % (pick(), first, pick())
+        else:
+            plain = self.n()
+            ctx.bind(plain)
+            t = '%s, (%s), [%s]' % (plain, pick(), first)
+        kinds = [k for k, names in (('global', c.g), ('nonlocal', c.nl)) if any(n in names for n in self.pool if n in t.replace(',', ' ').replace('(', ' ').replace(')', ' ').replace('[', ' ').replace(']', ' ').split())]
+        self.feat('del-structured-%s%s' % (form, ''.join('-of-%s-declared' % k for k in kinds)))
+        return '%sdel %s' % (ind, t)
+
     def body(self, ctx, depth, ind, nstmts, out):
         start = len(out)
         for _ in range(nstmts):
@@ -281,6 +316,13 @@ class Gen(object):
         c.is_async = is_async
         self.seen_depth(depth + 1)
         self.declarations(c, ind + '    ', out)
+        declared = sorted(c.g | c.nl)
+        if declared and rng.random() < 0.3:
+            k = len(out)
+            self.body(c, depth + 1, ind + '    ', rng.randint(0, 2), out) if rng.random() < 0.5 else None
+            if out[k:] == ['%s    pass' % ind]:
+                del out[k:]
+            out.append(self.structured_del(c, ind + '    ', must=rng.choice(declared)))
         self.body(c, depth + 1, ind + '    ', rng.randint(1, 5), out)
 
     def klass(self, ctx, depth, ind, out):
@@ -402,6 +444,10 @@ class Gen(object):
             self.feat('annassign')
             return out.append('%s%s: %s = %s' % (ind, n, self.n(), self.expr(ctx, depth, 1)))
         if r < 0.95:
+            if rng.random() < 0.5:
+                d = self.structured_del(ctx, ind)
+                if d:
+                    return out.append(d)
             n = self.n()
             ctx.bind(n)
             self.feat('del')
